@@ -588,7 +588,48 @@ func goJSONRoundTrip(a []string) string {
 		return goBodyRoundTrip(a)
 	}
 	r := c20Resolve(a, true)
+	if !r.maybe && (r.fam == "cell" || r.fam == "anycell") {
+		// a cell that cannot be hashed (deeper than 1024) cannot be serialised: outside the domain
+		if _, err := h.BuildCells(h.ParseTable(r.vtoks[0]))[0].Hash(); err != nil {
+			return "ok"
+		}
+	}
 	return c20RoundTrip(r, r.value())
+}
+
+// heapTable: a DAG of exactly n distinct cells, every inner cell with four references (row i refers to rows
+// 4i+1..4i+4), the index in the data (so all cells are distinct), every seventh cell filled up to 1023 bits
+func heapTable(g *h.G, n int) []h.Row {
+	t := make([]h.Row, n)
+	for i := 0; i < n; i++ {
+		d := []byte{byte(i >> 24), byte(i >> 16), byte(i >> 8), byte(i)}
+		bl := 32
+		if i%7 == 0 {
+			bl = 1023
+			d = append(d, g.RandData(1023-32)...)
+		}
+		var refs []int
+		for k := 1; k <= 4; k++ {
+			if c := 4*i + k; c < n {
+				refs = append(refs, c)
+			}
+		}
+		t[i] = h.Row{BitLen: bl, Data: d, Refs: refs}
+	}
+	return t
+}
+
+// chainTable: n cells in one chain (depth n-1)
+func chainTable(n int) []h.Row {
+	t := make([]h.Row, n)
+	for i := 0; i < n; i++ {
+		r := h.Row{BitLen: 16, Data: []byte{byte(i >> 8), byte(i)}}
+		if i+1 < n {
+			r.Refs = []int{i + 1}
+		}
+		t[i] = r
+	}
+	return t
 }
 
 // c20HexLen: byte length of the fixed-size hex families (0 for the others)
@@ -1241,6 +1282,35 @@ func genC20(g *h.G) {
 			emit([]string{"maybe", "magic"}, []string{"some", fmt.Sprint(uint32(g.U64()))}, full)
 		}
 		g.Count("maybe")
+	}
+	// cells at the boundaries of the BOC header fields: exactly 255/256/257 distinct cells (one- vs two-byte references
+	// and counters), 65535/65536/65537 in the thorough tier, chains of depth 1023 and 1024, 1023-bit and 4-ref cells
+	sizes := []int{255, 256, 257}
+	if g.Thorough() {
+		sizes = append(sizes, 65535, 65536, 65537)
+	}
+	var bigTables [][]h.Row
+	for _, n := range sizes {
+		bigTables = append(bigTables, heapTable(g, n))
+	}
+	bigTables = append(bigTables, chainTable(255), chainTable(256), chainTable(257), chainTable(1024), chainTable(1025))
+	for i, t := range bigTables {
+		ts := h.TableString(t)
+		g.Count(fmt.Sprintf("cell_boundary_%d_cells", len(t)))
+		g.NonTrivial(fmt.Sprintf("boundary-cell-%d", i))
+		g.Emit("go.json.rt", "cell", ts)
+		g.Emit("go.json.rt", "anycell", ts)
+		if len(t) <= 1024 {
+			g.Emit("go.json.rt", "maybe", "anycell", "some", ts)
+			g.Emit("go.json.rt", "inbody", "unknown", "7", ts)
+			g.Emit("go.json.rt", "extout", "unknown", "-", ts)
+		}
+		if len(t) <= 300 {
+			// small enough for the model of the BOC reader: the parse side is compared as well
+			if d, err := json.Marshal(h.BuildCells(t)[0]); err == nil {
+				g.Emit("json.parse", "cell", h.Hex(d))
+			}
+		}
 	}
 	// cells (BOC hex, owned by the boc slice: oracle only), account ids, message body envelopes
 	nc := g.Scale(300, 6000)
